@@ -28,6 +28,11 @@ def _train(ctx, cfg, B, D, sizes, memo, sched):
         ds, s = brewlib.make_dataset(ctx, D, n, fid, 2, "pm1")
         for i, z in enumerate(s["lab"]):
             ctx.assume(z == z3.BoolVal((i + fid) % 2 == 0))
+        if cfg.get("fixed_hash_order"):
+            # fold layout is C02's business: distinct spectra in a fixed hash order
+            for i in range(n - 1):
+                ctx.assume(z3.And(s["scan"][i] != s["scan"][i + 1],
+                                  brewlib.s_crc32(core.SKey((SNum(s["scan"][i]), SNum(s["mass"][i])))).z < brewlib.s_crc32(core.SKey((SNum(s["scan"][i + 1]), SNum(s["mass"][i + 1])))).z))
         dss.append(ds)
         syms.append(s)
     B.CHUNK_SIZE_ROWS_PREDICTION = B.CHUNK_SIZE_READ_ALL_DATA = max(sizes) + 1
@@ -114,11 +119,13 @@ def harnesses(tier):
 
     def add(name, cfg, rate=0.05):
         hs.append(Harness("brew[%s]" % name, cfg, sym, real="rerun", functions=[B.brew, D.OnDiskPsmDataset._split, B.make_train_sets, B._predict], bounds=cfg, stubs=stubs,
-                          assumptions=["bit-level reproducibility of numpy PCG64 / scikit-learn / pandas sorting is trusted", "set-iteration-order independence of read_fasta: check C16"], sample_rate=rate))
+                          assumptions=["bit-level reproducibility of numpy PCG64 / scikit-learn / pandas sorting is trusted", "set-iteration-order independence of read_fasta: check C16"], sample_rate=rate,
+                          validate_exc=False))
     if tier == "quick":
         add("n=4,folds=2,rerun same seed,task order", dict(sizes=[4], folds=2, mode="rerun"))
         add("n=4,folds=2,models fed back in any order", dict(sizes=[4], folds=2, mode="feedback"))
         add("n=4,folds=3,models fed back in any order", dict(sizes=[4], folds=3, mode="feedback"))
+        add("n=5,folds=2,cap=2,rerun same seed", dict(sizes=[5], folds=2, mode="rerun", cap=2, fixed_hash_order=True))
     else:
         add("n=5,folds=2,rerun same seed,task order", dict(sizes=[5], folds=2, mode="rerun"), 0.01)
         add("n=4,folds=2,cap,rerun same seed", dict(sizes=[4], folds=2, mode="rerun", cap=3), 0.01)
@@ -138,6 +145,7 @@ def real_rerun(cfg, inp):
     folds = int(inp["folds"])
 
     import mokapot.dataset as Dm
+    seed_box = [42]
     splits = []
     orig_split = Dm.OnDiskPsmDataset._split
 
@@ -152,13 +160,15 @@ def real_rerun(cfg, inp):
             scan, mass = c02.realize_keys(rows, inp["hashes"][fid])
             p, df = brewlib.real_dataset(None, d, fid, dict(rows, scan=scan, mass=mass), "pm1")
             dss.append(mokapot.read_pin(p, max_workers=1)[0])
-        _, models, scores, _ = mokapot.brew(dss, model=model, test_fdr=1.0, folds=folds, max_workers=workers, rng=42, subset_max_train=cfg.get("cap"))
+        _, models, scores, _ = mokapot.brew(dss, model=model, test_fdr=1.0, folds=folds, max_workers=workers, rng=seed_box[0], subset_max_train=cfg.get("cap"))
         return models, [np.asarray(s, dtype=float).tolist() for s in scores]
     Dm.OnDiskPsmDataset._split = rec_split
     try:
-        for attempt in range(6 if cfg.get("_failed") else 1):  # an unseeded draw shows up only with some probability per pair of runs
+        v = dict(outputs=None, violation=None)
+        for attempt in range(12 if cfg.get("_failed") else 1):  # an unseeded draw shows up only with some probability per pair of runs
+            seed_box[0] = 42 + attempt // 2
             v = _pair(cfg, inp, run, splits, folds)
-            if v.get("violation") or v.get("exception"):
+            if v.get("violation"):
                 return v
         return v
     finally:
